@@ -1,12 +1,20 @@
 import OpenFecVerif.Props.C02
 import OpenFecVerif.Props.C03
+import OpenFecVerif.Proofs.MLSound
 /-!
 # C01 — decoders never hand back a wrong source symbol
 
 Reed-Solomon part: whatever k distinct symbols the decoder's selection rule picks, interpolation
-returns the encoded source symbol (so a decoded symbol can only be right).  The LDPC-Staircase part
-(iterative decoder invariant, Gaussian elimination soundness) is in `Proofs/ITSound.lean` and
-`Proofs/GaussSound.lean` and is re-exported below as it is completed.
+returns the encoded source symbol (so a decoded symbol can only be right).
+
+LDPC-Staircase / 2D part: `ITSound.VInv O sent it` is the invariant of the decoder state `it` w.r.t. the transmitted
+block `sent` (every stored value is the transmitted one; every remaining equation has no repeated entry; the partial sum
+of an equation is the sum of the transmitted values of its remaining entries).  It holds after configuration
+(`C01_ldpc_configured`), is preserved by every submission of a true symbol through the iterative decoder — including the
+recursive rebuilding of symbols — (`C01_it_sound`) and by `of_finish_decoding`, i.e. the simplification of the system, the
+Gaussian elimination and the write-back (`C01_ldpc_session_sound`), for any sequence of calls.  Hypotheses: symbol addition
+is XOR-like (`Gauss.Lawful`), and the transmitted block satisfies every parity-check equation of the session
+(`MLSound.Codeword`) — which is what the encoder theorems of C06 establish.
 -/
 
 /-- RS over GF(2^8) (codec 1, codec 2 with m = 8): every decoded source position equals the encoded one -/
@@ -31,3 +39,43 @@ theorem C01_ml_sound {σ : Type} {O : Ops σ} (hO : Gauss.Lawful O) (q : Nat) (r
     (hlen : q ≤ rows.length) (xs : List σ) (h : Gauss.solve O q rows = some xs) (sent : List σ) (hx : sent.length = q)
     (hsat : ∀ r ∈ rows, Gauss.Sat O sent r) : xs = sent :=
   (C03_solve_sound hO q rows hw hlen xs h sent hx hsat).1
+
+/-- **Iterative decoder, value level.**  Whatever sequence of transmitted symbols is submitted to the streaming decoder
+(any order, duplicates, any prefix), every value it holds afterwards — received, or rebuilt from a partial sum by the
+recursive peeling — is the transmitted one. -/
+theorem C01_it_sound {σ : Type} {O : Ops σ} (hO : Gauss.Lawful O) (sent : Nat → σ) (n k : Nat) (Hl : List (List Nat))
+    (hnd : ∀ row ∈ Hl, row.Nodup) (hcw : ∀ row ∈ Hl, ITSound.S O sent row = O.zero) (l : List Nat) (e : Nat) (v : σ)
+    (h : (ITRefine.runExec O n k Hl (l.map fun e => (e, sent e))).sym.get e = some v) : v = sent e :=
+  (ITSound.run_sound hO sent n k Hl hnd hcw l).sym_ok e v h
+
+/-- the simplified system built by `of_finish_decoding` is satisfied by the transmitted values of the unknown symbols -/
+theorem C01_simplify_sound {σ : Type} {O : Ops σ} (hO : Gauss.Lawful O) (sent : Nat → σ) (sym : Nat → Option σ)
+    (hs : ∀ e v, sym e = some v → v = sent e) (k r : Nat) (row : List Nat) (hnd : row.Nodup)
+    (hlt : ∀ e ∈ row, e < k + r) (hcw : ITSound.S O sent row = O.zero) :
+    Gauss.Sat O ((MLSound.unknowns (fun e => (sym e).isSome) k r).map sent)
+      (MLSound.sysRow O sym (MLSound.unknowns (fun e => (sym e).isSome) k r) row) :=
+  MLSound.simplify_sat hO sent sym hs k r row hnd hlt hcw
+
+/-- a freshly configured LDPC-Staircase session (encoder or decoder role, odd or even N1) satisfies the invariant -/
+theorem C01_ldpc_configured {σ : Type} (IO : Api.SymIO σ) (g : Nat) (s : Api.Session σ) (p : Api.Params) (sent : Nat → σ)
+    (hc : s.codec = 3) (hO : Gauss.Lawful (IO.ops 3 p.m p.len)) (g' : Nat) (s' : Api.Session σ)
+    (h : Api.setParamsStd IO g s p = (g', .ok, s'))
+    (hcw : MLSound.Codeword (IO.ops 3 p.m p.len) sent (p.k + p.r) s'.H)
+    (hlast : s'.extra = false → p.N1 % 2 = 0 → sent (p.n - 1) = (IO.ops 3 p.m p.len).zero) :
+    ∃ it, s'.it = some it ∧ ITSound.VInv (IO.ops 3 p.m p.len) sent it :=
+  MLSound.setParams_sound IO g s p sent hc hO g' s' h hcw hlast
+
+/-- **LDPC-Staircase / 2D decoder sessions never hold a wrong symbol**: after any sequence of `of_decode_with_new_symbol` /
+`of_set_available_symbols` entries (any order, duplicates) and `of_finish_decoding` calls on the session model, every
+stored symbol — in particular every non-NULL entry of `of_get_source_symbols_tab` — is the transmitted one. -/
+theorem C01_ldpc_session_sound {σ : Type} (IO : Api.SymIO σ) (p : Api.Params) (sent : Nat → σ)
+    (hO : Gauss.Lawful (IO.ops 3 p.m p.len)) (ops : List MLSound.DecOp) (s : Api.Session σ) (it : IT.St σ)
+    (hit : s.it = some it) (inv : ITSound.VInv (IO.ops 3 p.m p.len) sent it)
+    (hcw : MLSound.Codeword (IO.ops 3 p.m p.len) sent (p.k + p.r) s.H) :
+    ∃ it', (MLSound.runDec IO p sent s ops).it = some it' ∧ ∀ e v, it'.sym.get e = some v → v = sent e := by
+  obtain ⟨it', h1, h2⟩ := MLSound.runDec_sound IO p sent hO ops s it hit inv hcw
+  exact ⟨it', h1, h2.sym_ok⟩
+
+-- non-vacuity: the byte-string XOR operations are lawful on symbols of one length is assumed (`Gauss.Lawful`); the invariant's
+-- premises are met by a concrete block: equation [0,1,2] over Bool symbols with the block (true, true, false)
+example : ITSound.S Gauss.boolOps (fun e => [true, true, false].getD e false) [0, 1, 2] = Gauss.boolOps.zero := by decide
